@@ -37,3 +37,7 @@ claim('C18', 'type-resolved selector/reader table comparison inside one function
 claim('C17', 'sibling-function agreement on the clang AST/CFG (classification mask folded, operator table, delegation arguments)',
       'Decides that cdata_richcompare and cdata_hash split on the same folded ct_flags mask, that the address class compares v->c_data with w->c_data using the C operator matching each of the six Py_LT..Py_GE constants and hashes the pointer of the same field, that the primitive class converts through convert_to_object(x->c_data, x->c_type) and delegates to PyObject_RichCompare with unchanged operands/op and to PyObject_Hash, and that mixed pairs return NotImplemented.',
       'Relies on CPython\'s own consistency of == and hash for numbers/bytes/str; values of Py_LT..Py_GE as in object.h.')
+
+claim('C06', 'cross-table extraction and comparison (clang AST initialisers/macros, Python ast literals), return-site consistency analysis with dominating facts, compile-only _Static_assert witnesses with a failing twin (gcc; clang too in thorough)',
+      'Decides, exhaustively over the finite set of primitive names, that the header and cffi_opcode.py number primitives/opcodes/flags identically, that PRIMITIVE_TO_INDEX and primitive_name[] are inverse, that PRIMITIVE_TO_INDEX, ALL_PRIMITIVE_TYPES and the rows of new_primitive_type have the same names once each, that every return site of search_standard_typename is consistent with exactly the one name of its index (length, literal, dispatch characters) and every _t name has one site, that model kinds match backend flag classes, that the keyword/modifier switches of the C parser name the right primitive, and — by compile-time assertions nothing runs — that each exported name as the platform compiler understands it has the size, alignment and signedness/kind of the type and flags its row records.',
+      'The platform compiler with the standard headers is the oracle for the witness; run-time identity of ctype objects across FFIs is C27.')
